@@ -29,6 +29,10 @@ def reverse_find_token(items: list[ExprNode], value: str) -> int:
     return -1
 
 
+def _stack_precedence(node: ExprNode) -> int:
+    return 2 if isinstance(node, UnaryOp) else OPERATOR_PRECEDENCE[node.token.value]
+
+
 def shunting_yard(expr_nodes: list[ExprNode]) -> list[ExprNode]:
     output_queue: list[ExprNode] = []
     operator_stack: list[ExprNode] = []
@@ -36,13 +40,16 @@ def shunting_yard(expr_nodes: list[ExprNode]) -> list[ExprNode]:
     for expr in expr_nodes:
         if isinstance(expr, Term):
             output_queue.append(expr)
-        elif isinstance(expr, BinOp) or isinstance(expr, UnaryOp):
-            current_precedence = OPERATOR_PRECEDENCE[expr.token.value] if isinstance(expr, BinOp) else 2
+        elif isinstance(expr, UnaryOp):
+            # prefix operators bind to what follows: nothing already stacked can be applied yet
+            operator_stack.append(expr)
+        elif isinstance(expr, BinOp):
+            current_precedence = OPERATOR_PRECEDENCE[expr.token.value]
 
             while (
                 len(operator_stack) > 0
-                and OPERATOR_PRECEDENCE[operator_stack[-1].token.value] <= current_precedence
                 and operator_stack[-1].token.value != "("
+                and _stack_precedence(operator_stack[-1]) <= current_precedence
             ):
                 output_queue.append(operator_stack.pop())
             operator_stack.append(expr)
